@@ -293,30 +293,52 @@ def checkSceneVG (c : Case) : CaseResult := Id.run do
     return { verdict := .diverge "oracle finds no route in the dumped visibility graph although the router returned one", stats := stats0 }
   let some xs := (c.get1 "vgx").bind nums? | return { verdict := .diverge "no vgx" }
   let some ys := (c.get1 "vgy").bind nums? | return { verdict := .diverge "no vgy" }
+  let some fl := c.get1 "vgf" | return { verdict := .diverge "no vgf" }
   let some al := c.get1 "vga" | return { verdict := .diverge "no vga" }
   let some st := c.get1 "vgs" | return { verdict := .diverge "no vgs" }
   let some pot := (c.get1 "vgpot").bind nums? | return { verdict := .diverge "no vgpot" }
   let some wl := c.get1 "vgwit" | return { verdict := .diverge "no vgwit" }
   let g : AdaptaVerif.Check.OrthGraph.VG :=
-    { xs := xs, ys := ys, adj := parseAdj al, src := nat! st[0]!, tar := nat! st[1]!, pen := pen }
+    { xs := xs, ys := ys, adj := parseAdj al, src := nat! st[0]!, tar := nat! st[1]!, pen := pen,
+      flags := fl.map nat!, prune := false }
   let wit := wl.toList.map nat!
   let cert : AdaptaVerif.Check.OrthGraph.Cert := { pot := pot, wit := witVG g g.src wit }
+  -- second certificate: optimum among the routes the documented turn-pruning rule permits
+  let gp := { g with prune := true }
+  let popt : Option Rat :=
+    match (c.get1 "vppot").bind nums?, c.get1 "vpwit" with
+    | some ppot, some pwl =>
+      AdaptaVerif.Check.OrthGraph.checkCert gp { pot := ppot, wit := witVG gp gp.src (pwl.toList.map nat!) }
+    | _, _ => none
+  let pReach := ((c.get1 "vpreachable").map (fun l => l[0]! == "1")).getD false
+  if pReach && popt.isNone then
+    return { verdict := .diverge "certificate for the optimum under the pruning rule rejected", stats := stats0 }
   match AdaptaVerif.Check.OrthGraph.checkCert g cert with
   | none => return { verdict := .diverge s!"own-graph certificate rejected: {AdaptaVerif.Check.OrthGraph.explain g cert}", stats := stats0 }
   | some opt =>
     let nb := bendsOfHeadings hs
     let cost := polyLen route + (nb : Rat) * pen
-    let stats := (s!"route.bends.{min nb 6}", 1) :: ("vg.vertices", xs.size) :: stats0
+    let lossy := match popt with | some p => p > opt + tol | none => true
+    let aligned := sv[0]! == tv[0]! || sv[1]! == tv[1]!
+    let stats := (s!"route.bends.{min nb 6}", 1) :: ("vg.vertices", xs.size) ::
+      (if lossy then "scene.prune-lossy" else "scene.prune-safe", 1) :: stats0
+    -- the tag is the harness' claim about the scene class; it must agree with the certified values
+    if c.tag == "scene-dirs-src" && (lossy || aligned) then
+      return { verdict := .diverge s!"scene tagged {c.tag} but certified class is prune-lossy={lossy} aligned={aligned}", stats := stats }
     if AdaptaVerif.Check.Hanan.absR (cost - opt) ≤ tol then
       return { verdict := .ok, nontrivial := nb > 0, stats := stats }
     else if cost > opt then
-      -- where does the cheapest route of the graph leave the route that was returned?
       let wpts := (g.xs.getD g.src 0, g.ys.getD g.src 0) :: wit.map fun v => (g.xs.getD v 0, g.ys.getD v 0)
       let wlegs := legsOf wpts
-      let lost := match legs.head?, wlegs.head? with
-        | some (h, l), some (h', l') => if h = h' && l' < l && wlegs.length > 1 then "first-segment" else if h != h' then "first-heading" else "later"
-        | _, _ => "later"
-      return { verdict := .specfail s!"suboptimal route in libavoid's own visibility graph: cost {ratToString cost} ({nb} bends) > graph optimum {ratToString opt} ({wlegs.length - 1} bends); penalty {ratToString pen}; restricted: {which} (masks {smask}/{tmask}); optimal turn not taken: {lost}", stats := stats }
+      let detail := s!"cost {ratToString cost} ({nb} bends) > graph optimum {ratToString opt} ({wlegs.length - 1} bends); penalty {ratToString pen}; restricted: {which} (masks {smask}/{tmask})"
+      match popt with
+      | some p =>
+        if lossy && AdaptaVerif.Check.Hanan.absR (cost - p) ≤ tol then
+          return { verdict := .specfail s!"suboptimal route (turn pruning discards every optimal route of libavoid's own visibility graph; route = optimum under the pruning rule {ratToString p}): {detail}", stats := stats }
+        else
+          return { verdict := .specfail s!"suboptimal route NOT explained by the documented turn-pruning rule (optimum under that rule {ratToString p}): {detail}", stats := stats }
+      | none =>
+        return { verdict := .specfail s!"suboptimal route (the documented turn-pruning rule leaves no route at all): {detail}", stats := stats }
     else
       return { verdict := .diverge s!"route cheaper than the optimum of the dumped graph: {ratToString cost} < {ratToString opt} (route uses an edge that was not dumped?)", stats := stats }
 
